@@ -307,7 +307,9 @@ def c10_derive(lines):
 
 @prop("C10", replay_known=replay_runtime_known)
 def c10(ctx, rep):
-    run_corr(ctx, rep, [("c10", 400, 10000), ("c08", 250, 5000)], fields=["out", "val", "errs", "gs", "st", "cnt"],
+    # c12: grammars without code blocks and state, rich in predicates, on failing inputs - the template variant without a
+    # state store, where the error report is all there is to compare
+    run_corr(ctx, rep, [("c10", 400, 10000), ("c12", 250, 5000), ("c08", 250, 5000)], fields=["out", "val", "errs", "gs", "st", "cnt"],
              ref_fields=["out", "val", "errs"], known_quirks=known_quirks_for("C10"), derive=c10_derive, emitted=(24, 300))
     from .props import same_on
     pairs = skipped = 0
